@@ -429,6 +429,15 @@ class KafkaCodec(object):
             else:
                 raise ProtocolError("Unsupported codec 0b{:b}".format(codec))
 
+        def v1_inner(wrapper_offset, data):
+            # A v1 wrapper carries the absolute offset of its last inner
+            # message; the inner offsets are relative to the first one.
+            inner = list(KafkaCodec._decode_message_set_iter(data))
+            if inner:
+                base_offset = wrapper_offset - inner[-1].offset
+                for relative_offset, msg in inner:
+                    yield base_offset + relative_offset, msg
+
         def v1(data, offset, cur):
             ((timestamp,), cur) = relative_unpack(">q", data, cur)
             (key, cur) = read_int_string(data, cur)
@@ -441,12 +450,12 @@ class KafkaCodec(object):
 
             elif codec == CODEC_GZIP:
                 gz = gzip_decode(value)
-                for offset, msg in KafkaCodec._decode_message_set_iter(gz):
+                for offset, msg in v1_inner(offset, gz):
                     yield offset, msg
 
             elif codec == CODEC_SNAPPY:
                 snp = snappy_decode(value)
-                for offset, msg in KafkaCodec._decode_message_set_iter(snp):
+                for offset, msg in v1_inner(offset, snp):
                     yield offset, msg
 
             else:
